@@ -112,7 +112,9 @@ def check_one(case):
                     return "compare_pos", (f"compare_pos_in_iterables on the caller's lists {a},{b} (call {2 * rnd + (tag == 'b,a') + 1} "
                                            f"on the same objects, order {tag}) -> {got}, expected {want}; lists afterwards {la},{lb}"), {"got": got}
         # unhashable elements (lists) and a mix of hashable / unhashable ones, also through one-shot iterables
-        for wrap in (lambda x: [x], lambda x: [x] if x else x):
+        # ... and elements that are only partially ordered (frozensets: `<` is the subset test) or not ordered at all (complex)
+        for wrap in (lambda x: [x], lambda x: [x] if x else x, lambda x: frozenset([x]), lambda x: frozenset([x, -1 - x]),
+                     lambda x: complex(x, 1)):
             ua, ub = [wrap(x) for x in a], [wrap(x) for x in b]
             for fa, fb in ((list(ua), list(ub)), (iter(list(ua)), list(ub)), ((x for x in ua), iter(list(ub)))):
                 got = outcome(g.compare_pos_in_iterables, fa, fb)
